@@ -509,6 +509,62 @@ func c19Render(decs []string) string {
 		if !sameStrings(got, wantN) {
 			return fmt.Sprintf("%s: All() = %q but rendered comments (second file of a file set) are %q", t.Name, want, got)
 		}
+		// ... and with multi-byte text in every comment (block comments over three lines, the first ones long):
+		// positions and line tables count bytes, All() holds strings
+		var mb []string
+		for _, x := range decs {
+			switch {
+			case strings.HasPrefix(x, "/*"):
+				x = strings.TrimSuffix(x, "*/") + " 日本語日本語日本語日本語日本語日本語\nЛицензия ÄÖÜäöüß\nß */"
+			case strings.HasPrefix(x, "//"):
+				x += " ☺☺☺☺ größer"
+			}
+			mb = append(mb, x)
+		}
+		d.Replace(mb...)
+		want = d.All()
+		buf.Reset()
+		if msg := guard(func() { perr = decorator.Fprint(&buf, f) }); msg != "" || perr != nil {
+			return fmt.Sprintf("%s: rendering %q (multi-byte text) fails: %s %v", t.Name, want, msg, perr)
+		}
+		mbText := buf.String()
+		af, err = parser.ParseFile(token.NewFileSet(), "", buf.Bytes(), parser.ParseComments)
+		if err != nil {
+			return t.Name + ": printed text (multi-byte comments) does not parse: " + err.Error()
+		}
+		got, wantN = nil, nil
+		for _, cg := range af.Comments {
+			for _, cm := range cg.List {
+				if cm.Text != "// fixed" {
+					got = append(got, norm(cm.Text))
+				}
+			}
+		}
+		for _, x := range want {
+			wantN = append(wantN, norm(x))
+		}
+		if !sameStrings(got, wantN) {
+			return fmt.Sprintf("%s: All() = %q but rendered comments are %q", t.Name, want, got)
+		}
+		// the same list with the multi-byte letters replaced by ASCII letters is laid out the same way
+		var twin []string
+		for _, x := range mb {
+			twin = append(twin, asciiTwin(x))
+		}
+		d.Replace(twin...)
+		buf.Reset()
+		if msg := guard(func() { perr = decorator.Fprint(&buf, f) }); msg != "" || perr != nil {
+			return fmt.Sprintf("%s: rendering %q fails: %s %v", t.Name, twin, msg, perr)
+		}
+		if asciiTwin(mbText) != buf.String() {
+			return fmt.Sprintf("%s: All() = %q is laid out differently from the same list in ASCII letters:\n%s\nvs\n%s", t.Name, want, mbText, buf.String())
+		}
+		d.Replace(ml...)
+		want = d.All()
+		wantN = nil
+		for _, x := range want {
+			wantN = append(wantN, norm(x))
+		}
 		// ... and by a Restorer that restores the object graph too (Extras), when a name in the file has a
 		// hand-made object whose declaration lives elsewhere and carries comments of its own: those belong
 		// to no decoration list of this tree
@@ -567,4 +623,17 @@ func init() {
 		json.Unmarshal(raw, &r)
 		return c19Render(r.Decs)
 	}
+}
+
+// asciiTwin replaces every non-ASCII letter by an ASCII letter (one rune -> one byte).
+func asciiTwin(s string) string {
+	var b strings.Builder
+	for _, r := range s {
+		if r > 127 {
+			b.WriteByte('x')
+		} else {
+			b.WriteRune(r)
+		}
+	}
+	return b.String()
 }
